@@ -160,6 +160,15 @@ func c02(r *core.Run) {
 		}
 	}
 	r.Floor("R5.dupkey", 1)
+
+	// R6 the checker side that the run time relies on: census of the linearity mechanisms (a resource the checker wrongly
+	// treats as definitely moved/destroyed is lost at run time without any run-time check)
+	pinnedCallCensus(r, "R6.checker", "c03_linearity_edges", "sema", []string{
+		"checkConditionalBranches", "checkPotentiallyUnevaluated", "MergeBranches", "checkResourceLoss", "leaveValueScope",
+		"checkResourceMoveOperation", "recordResourceInvalidation", "checkResourceUseAfterInvalidation", "maybeAddResourceInvalidation",
+		"MaybeReturned", "MaybeJumped", "AddInvalidation", "RemoveTemporaryMoveInvalidation", "checkResourceFieldNesting",
+	}, "the checker would accept a program that loses or duplicates a resource; there is no run-time check behind it")
+	r.Floor("R6.checker", 50)
 }
 
 func c04(r *core.Run) {
